@@ -150,7 +150,9 @@ Definition run_parse (e : entry) (l : bytes) : list kv :=
       let r := typed_parse v l in
       ("r", obs_pres obs_packet r) ::
       match r, v with
-      | Ok p, VUnknown => [("conv", obs_conv p); ("convv", obs_conv p)]
+      | Ok p, VUnknown => [("conv", obs_conv p); ("convv", obs_conv p);
+                           (* the same through Packet::from(unknown) and Packet::try_as / TryFrom<Packet> *)
+                           ("pconv", obs_conv p); ("pconvv", obs_conv p)]
       | _, _ => []
       end
   | ERb =>
